@@ -10,6 +10,7 @@ inductive Op
   | add (time val : Nat)
   | cancel (k : Nat)        -- cancel the handle returned by the k-th successful `add`
   | fetch
+  | peek                    -- `next_time()`: read-only
 deriving Repr, DecidableEq
 
 inductive Out
@@ -20,6 +21,7 @@ inductive Out
   | fetched (val time : Nat)
   | empty                    -- `fetch_next` panicked: queue empty
   | internal                 -- the model hit a state the code cannot reach (index / fuel)
+  | peeked (t : Option Nat)  -- answer of `next_time()`
 deriving Repr, DecidableEq
 
 /-- handles issued so far: `(id, time)` as stored in `EventHandle` -/
@@ -39,6 +41,7 @@ def mstep (st : CQ.State × Handles) : Op → (CQ.State × Handles) × Out
     | .ok (e, m') => ((m', st.2), .fetched e.val e.time)
     | .error .empty => (st, .empty)
     | .error _ => (st, .internal)
+  | .peek => (st, .peeked (CQ.nextTime st.1))
 
 def sstep (st : FES.State × Handles) : Op → (FES.State × Handles) × Out
   | .add time val =>
@@ -53,6 +56,7 @@ def sstep (st : FES.State × Handles) : Op → (FES.State × Handles) × Out
     match FES.fetch st.1 with
     | .ok (e, s') => ((s', st.2), .fetched e.val e.time)
     | .error _ => (st, .empty)
+  | .peek => (st, .peeked (FES.nextTime st.1))
 
 /-- run a script, collecting the outputs -/
 def runWith {σ : Type} (step : σ → Op → σ × Out) : σ → List Op → σ × List Out
